@@ -99,8 +99,11 @@ func u6Edge(in u6State, pred, succ *ssa.BasicBlock) u6State {
 }
 
 // u6Analyse: for every block, the facts that hold at its entry on every path.
-func u6Analyse(f *ssa.Function) map[*ssa.BasicBlock]u6State {
-	in := map[*ssa.BasicBlock]u6State{f.Blocks[0]: {}}
+func u6Analyse(f *ssa.Function, entry u6State) map[*ssa.BasicBlock]u6State {
+	if entry == nil {
+		entry = u6State{}
+	}
+	in := map[*ssa.BasicBlock]u6State{f.Blocks[0]: entry}
 	for changed := true; changed; {
 		changed = false
 		for _, b := range f.Blocks {
@@ -171,8 +174,69 @@ func u6Analyse(f *ssa.Function) map[*ssa.BasicBlock]u6State {
 	return in
 }
 
+// u6Ctx: per-function facts with entry facts taken from the call sites of unexported helpers (a
+// helper that narrows its parameters relies on what every caller established before the call).
+type u6Ctx struct {
+	p       *Prog
+	memo    map[*ssa.Function]map[*ssa.BasicBlock]u6State
+	busy    map[*ssa.Function]bool
+	callers map[*ssa.Function][]*ssa.Call
+}
+
+func (c *u6Ctx) factsOf(f *ssa.Function) map[*ssa.BasicBlock]u6State {
+	if m, ok := c.memo[f]; ok {
+		return m
+	}
+	entry := u6State{}
+	if !isExportedAPI(f) && len(c.callers[f]) > 0 && !c.busy[f] {
+		c.busy[f] = true
+		for i, prm := range f.Params {
+			bt, ok := prm.Type().Underlying().(*types.Basic)
+			if !ok || bt.Kind() != types.Uint64 {
+				continue
+			}
+			all := true
+			for _, call := range c.callers[f] {
+				h := call.Parent()
+				if h == nil || h.Blocks == nil || i >= len(call.Call.Args) {
+					all = false
+					break
+				}
+				if !c.factsOf(h)[call.Block()].bounded(call.Call.Args[i]) {
+					all = false
+					break
+				}
+			}
+			if all {
+				entry[u6Fact{'B', prm, nil}] = true
+			}
+		}
+		delete(c.busy, f)
+	}
+	m := u6Analyse(f, entry)
+	if !c.busy[f] {
+		c.memo[f] = m
+	}
+	return m
+}
+
 func ruleU6(p *Prog) *RuleResult {
 	res := newResult("U6", ruleDoc["U6"], 6)
+	ctx := &u6Ctx{p: p, memo: map[*ssa.Function]map[*ssa.BasicBlock]u6State{}, busy: map[*ssa.Function]bool{}, callers: map[*ssa.Function][]*ssa.Call{}}
+	for _, g := range p.sourceFns() {
+		if g.Blocks == nil {
+			continue
+		}
+		for _, b := range g.Blocks {
+			for _, ins := range b.Instrs {
+				if call, ok := ins.(*ssa.Call); ok {
+					if callee := call.Call.StaticCallee(); callee != nil {
+						ctx.callers[callee] = append(ctx.callers[callee], call)
+					}
+				}
+			}
+		}
+	}
 	fns := append([]*ssa.Function(nil), p.sourceFns()...)
 	sort.Slice(fns, func(i, j int) bool { return fname(fns[i]) < fname(fns[j]) })
 	for _, f := range fns {
@@ -209,7 +273,7 @@ func ruleU6(p *Prog) *RuleResult {
 					}
 				}
 			}
-			facts := u6Analyse(f)
+			facts := ctx.factsOf(f)
 			visit(prm, prm.Name(), func(at *ssa.BasicBlock) bool {
 				// start < e with e <= 2^32, or start <= MaxUint32, on every path to the conversion
 				return facts[at].bounded(prm)
